@@ -366,7 +366,7 @@ package sbom
 //@   inline
 //@   assigns \nothing
 //@   ensures [C08:indexRoots:keys] result != nil && fresh(result) && (forall k string :: (k in result) <==> (k in elems(nl.RootElements)))
-//@   invariant L0: [C08:idx] index != nil && fresh(index) && (forall k string :: (k in index) <==> (k in elemsn(nl.RootElements, _i)))
+//@   invariant L0: index != nil && fresh(index) && (forall k string :: (k in index) <==> (k in elemsn(nl.RootElements, _i)))
 
 // the purl a node is looked up by ("" for files and for nodes without one): the value of Node.Purl
 //@ pred purlOf(n *Node) = (n.Type == 1 ? "" : ((1 in n.Identifiers) ? n.Identifiers[1] : ""))
